@@ -134,34 +134,45 @@ def load_known(prop: str) -> list[dict]:
     return [e for e in data.get("findings", []) if e.get("property") == prop]
 
 
+def _entry_applies(sig: dict, e: dict) -> bool:
+    if e.get("status", "open") != "open":
+        return False
+    for k, allowed in e.get("match", {}).items():
+        if k == "tags_all":
+            if not set(allowed) <= set(sig.get("tags", [])):
+                return False
+            continue
+        v = sig.get(k)
+        if isinstance(allowed, list):
+            if v not in allowed:
+                return False
+        elif v != allowed:
+            return False
+    return True
+
+
 def match_known(sig: dict, entries: list[dict]) -> dict | None:
-    """An entry matches iff it is open, every key of entry['match'] is present in sig with an
-    allowed value, and (subset rule) sig['fields'] (if any) is a subset of entry['fields']."""
-    for e in entries:
-        if e.get("status", "open") != "open":
-            continue
-        ok = True
-        for k, allowed in e.get("match", {}).items():
-            if k == "tags_all":
-                if not set(allowed) <= set(sig.get("tags", [])):
-                    ok = False
-                    break
-                continue
-            v = sig.get(k)
-            if isinstance(allowed, list):
-                if v not in allowed:
-                    ok = False
-                    break
-            elif v != allowed:
-                ok = False
-                break
-        if not ok:
-            continue
+    """A violation is known iff some open entries' structural predicates hold for it and (subset rule)
+    every field that went wrong is declared by at least one of those entries.  Entries without 'fields'
+    cover violations that carry no 'fields'.  Returns the first applicable entry (for reporting)."""
+    app = [e for e in entries if _entry_applies(sig, e)]
+    if not app:
+        return None
+    f = sig.get("fields")
+    if f is None:
+        for e in app:
+            if "fields" not in e:
+                return e
+        return None
+    declared = set()
+    unrestricted = False
+    for e in app:
         if "fields" in e:
-            f = sig.get("fields")
-            if f is None or not set(f) <= set(e["fields"]):
-                continue
-        return e
+            declared |= set(e["fields"])
+        else:
+            unrestricted = True
+    if unrestricted or set(f) <= declared:
+        return app[0]
     return None
 
 
@@ -356,8 +367,11 @@ def drive(modname: str, tier: str, seed: int, replay_path: str | None = None) ->
           f"distinct_nontrivial={len(merged.distinct)} monitors={merged.monitors} "
           f"known_cases={known_total} fresh={fresh_sigs} wall={ev['wall_s']}s")
     if sig_counts and os.environ.get("VERIF_SIGS"):
-        for skey, n in sorted(sig_counts.items(), key=lambda kv: -kv[1])[:200]:
+        only_fresh = os.environ.get("VERIF_SIGS") == "fresh"
+        for skey, n in sorted(sig_counts.items(), key=lambda kv: -kv[1])[:4000]:
             e = match_known(json.loads(skey), known)
+            if only_fresh and e is not None:
+                continue
             print(f"  sig[{'known:' + e['id'] if e else 'FRESH'}] x{n}: {skey}")
     if fresh:
         shown = set()
